@@ -42,6 +42,7 @@ id sits on its slot, every other slot is `00`, the line has `den` slots), `line_
   outside: `hch` (the file's lines give the channel an *arrangement* of these objects — proved as a membership
   equivalence in `written_objects`, not as a permutation through `writeCells`; header lines not shown to add no data
   lines), `hstrict` (needs monotonicity of snapping), and threading the header / tempo read-back through `denote`.
+  All three are discharged in `Props/C05.lean`: `bms_write_read` is the whole-file statement.
 -/
 import Reamber.Lemmas.FindLcm
 import Reamber.Lemmas.BMSLines
@@ -1002,6 +1003,7 @@ hold per in-memory hold, in the lane's column, whose by-the-book times `timeAt 0
 exactly on the snap grid and within 1/192 beat (at the tempo in force) otherwise.
 
 What is assembled here: `write_positions` (K1 as run), `written_lane_sorted`, `pairLane_atoms`.
+(Superseded by `bms_write_read` in `Props/C05.lean`, which discharges all three items below for the whole file.)
 Exactly what is still outside (`_partial`):
 * `hch` — "the file's lines give channel `ch` an arrangement of these objects": proved as a membership equivalence
   for the data lines (`written_objects`, `written_line_denotes`, `lineKeys_cover`) with the positions of
